@@ -488,7 +488,7 @@ class IPAddr6 (_AddrBase):
         addr += ':0:0'
 
       segs = addr.split(':')
-      if addr.count('::') > 1:
+      if addr.count('::') > 1 or ':::' in addr:
         raise RuntimeError("Bad address format " + str(addr))
       if len(segs) < 3 or len(segs) > 8:
         raise RuntimeError("Bad address format " + str(addr))
